@@ -1067,6 +1067,22 @@ def edges(rng, case, idx):
             # outside: that charge is no rounding noise, and a real loss elsewhere in the timeframe is still refused
             # (round 17, second wave) a solution made from a source at the source's own concentration needs no solvent: the
             # solvent, too, is only moved - source + new solution answer 0 for it
+            # (round 17, third wave) many transfers between two large vessels that are no destinations, and a real loss of the plate
+            M.bucket(case['prop'] + '/edge/E29_a_loss_next_to_traffic_between_large_vessels')
+            carboy2 = C('carboy', initial_contents=[(water, rng.choice(['1000 L', '400 L']))])
+            tank, waste2, pl2 = C('tank'), C('waste', '1 L'), pp.Plate('p', '500 uL', rows=2, columns=3)
+            r = pp.Recipe().uses(carboy2, tank, waste2, pl2)
+            r.transfer(carboy2, pl2, '100 uL')
+            r.start_stage('x')
+            for k_ in range(rng.choice([60, 120])):
+                r.transfer(carboy2, tank, '1 mL')
+            r.transfer(pl2[1, 1], waste2, rng.choice(['0.02 nL', '0.05 nL', '0.01 nL']))
+            r.end_stage('x')
+            _, exc = attempt(lambda: r.bake())
+            if exc is None and cf.q * cf.mol_prefix <= 1e-15 and cf.q * cf.vol_prefix <= 1e-15:
+                res, exc = attempt(lambda: r.get_substance_used(water, 'x', 'nmol', destinations=[pl2]))
+                if exc is None or not isinstance(exc, ValueError):
+                    viol(['C09'], 'C09:net_decrease_not_refused_with_ValueError:next_to_traffic_between_large_vessels', {'answer': res, 'exc': repr(exc)[:100]})
             M.bucket(case['prop'] + '/edge/E29_a_solution_from_step_at_the_own_concentration')
             for w_ul, take in ((19, '10 uL'), (19, '2 uL'), (49, '15 uL'), (79, '40 uL'), (29, '7 uL'), (39, '13 uL')):
                 st_ = C('stock', '1 mL', [(salt_, '1 mg'), (water, f'{w_ul} uL')])
@@ -1379,6 +1395,21 @@ def edges(rng, case, idx):
                         viol(['C05', 'C03'], 'C05:total_quantity_not_met:enzyme_shares_that_add_up_to_one', {'concentrations': concs, 'total': tot, 'got_L': got})
                 elif not isinstance(exc, ValueError):
                     viol(['C05', 'C03'], f'C05:refusal_not_ValueError:enzyme_shares_that_add_up_to_one:{type(exc).__name__}', {'concentrations': concs, 'total': tot})
+            # (round 17, third wave) the solutes make up the stated total by themselves: no room for the solvent - refused, not
+            # answered with a 'solution' that holds the cancellation noise of the difference as its solvent
+            M.bucket(case['prop'] + '/edge/E31_no_room_for_the_solvent')
+            glu_ = S.solid('glucose', 180.156)
+            for solutes_, kw in [(glu_, {'quantity': f'{v_} mL', 'total_quantity': f'{v_} mL'}) for v_ in (10, 3, 7, 25, 40, 90)] + \
+                                [(salt, {'quantity': f'{v_} kg', 'total_quantity': f'{v_} kg'}) for v_ in (1, 2, 5, 30)] + \
+                                [(kcl, {'quantity': f'{v_} g', 'total_quantity': f'{v_} g'}) for v_ in (1, 6, 11, 250, 700)] + \
+                                [([salt, kcl], {'quantity': ['600 kg', '400 kg'], 'total_quantity': '1000 kg'}), ([salt, kcl], {'quantity': ['300 kg', '700 kg'], 'total_quantity': '1000 kg'}),
+                                 ([salt, kcl], {'concentration': ['0.1 g/g', '0.9 g/g'], 'total_quantity': '1 kg'}), ([salt, kcl], {'concentration': ['0.25 g/g', '0.75 g/g'], 'total_quantity': '3 kg'}),
+                                 ([salt, kcl], {'quantity': ['6 g', '4 g'], 'total_quantity': '10 g'}), ([salt, kcl], {'quantity': ['60 mg', '40 mg'], 'total_quantity': '100 mg'})]:
+                res, exc = attempt(lambda: C.create_solution(solutes_, water, **kw))
+                if exc is None:
+                    viol(['C03', 'C05'], 'C03:no_room_for_the_solvent_accepted', {'kwargs': kw, 'solvent_stored': res.contents.get(water, 0.0)})
+                elif not isinstance(exc, ValueError):
+                    viol(['C03', 'C05'], f'C03:refusal_not_ValueError:no_room_for_the_solvent:{type(exc).__name__}', {'kwargs': kw})
             M.bucket(case['prop'] + '/edge/E31_a_trace_in_moles_next_to_a_dilute_enzyme')
             amy50, lip3 = S.enzyme('amylase', '50 U/mg'), S.enzyme('lipase', '3 U/ug')
             for enz_, concs, tot in ((amy50, ['1 pg/kg', '10 kU/kg'], '1 kL'), (lip3, ['1 pg/kg', '100 kU/mol'], '10 kg'), (amy50, ['1 pM', '20 U/g'], '100 kg')):
